@@ -14,6 +14,8 @@ import DracoProofs.EbConnNoOpp
 import DracoProofs.EbFinal3
 import DracoProofs.EbSplitFreeLink
 import DracoProofs.EbFinal6
+import DracoProofs.EbFinal7
+import DracoProofs.EbNoSLink
 import DracoProofs.EbStartFaceCount
 import DracoProofs.EbCTIsoComplete
 /-
@@ -913,7 +915,7 @@ section LinkBase
 open Draco Draco.SeqEnc DecM Draco.EbEnc
 open Draco.Eb hiding iabs nextC prevC
 open Draco.EbEnc.PosAgreeP Draco.EbEnc.Tuples Draco.EbEnc.FaceCorr Draco.EbEnc.PlanSettingP Draco.EbEnc.Final2 Draco.EbEnc.Final3
-  Draco.EbEnc.Final4 Draco.EbEnc.Final5 Draco.EbEnc.Final6 Draco.EbEnc.EncCounts Draco.EbEnc.ConnExample
+  Draco.EbEnc.Final4 Draco.EbEnc.Final5 Draco.EbEnc.Final6 Draco.EbEnc.Final7 Draco.EbEnc.EncCounts Draco.EbEnc.ConnExample
 
 /-- (b'') **eb_roundtrip_of_link_base_partial** — the stream-level round trip for the class "EVERY CONTROLLER IS ON THE BASE
     TABLE" (`hclass`: `onAttTable = false` for every controller output — single connectivity, position-only geometries,
@@ -925,7 +927,10 @@ open Draco.EbEnc.PosAgreeP Draco.EbEnc.Tuples Draco.EbEnc.FaceCorr Draco.EbEnc.P
     single connectivity and for position-only geometries).  Hypotheses left: the run (`henc`, `hmd`), the domain (`hatt`,
     `huid`, `hn128`, `hbytes`, `hgv`), the CONNECTIVITY LINK (`hconn`, `hiso`, `hmatts`), the decoder-table facts `DecBaseOK`
     (vertex ids index `vc`, `IsOnBoundary` agrees, points refine vertices) and `DecSeqOK` (`EbDecSeqOK.decSeqOK_of_stages`
-    derives it from the decoder's stages), `hvals` (value blocks), `hrest`. -/
+    derives it from the decoder's stages), `hVS : ValueSideOK` (follow-up 5b: `hvals` resolved — the isomorphism, `Hedge`, `OppInvol`, traversal
+    and encoder-run hypotheses of every value block are derived from the link, `Final7.hvals_of_link`; `ValueSideOK` keeps, per
+    block, the evaluated side conditions: scheme kinds, int32 range, canonical normals, crease counts, the parent attribute),
+    `hrest`. -/
 theorem eb_roundtrip_of_link_base_partial (ch : EbChoices) (g : Geometry) (md : Option GeometryMetadata) (o : EbOpts)
     (enc : Encoded) (henc : encodeEdgebreaker ch g md o = .ok enc) (hmd : ∀ m, md = some m → m.WF')
     (hatt : ∀ a, a < g.atts.toArray.size → EbAttOK (g.atts.toArray[a]!) (o.base.att a))
@@ -938,12 +943,7 @@ theorem eb_roundtrip_of_link_base_partial (ch : EbChoices) (g : Geometry) (md : 
     (hmatts : mesh.atts.size = enc.conn.atts.size)
     (hD : DecBaseOK enc mesh) (hS : DecSeqOK mesh)
     (hclass : ∀ c ∈ enc.couts.toList, (enc.controllers[c.ctrl]!).onAttTable = false)
-    (hvals : ∀ sides, sidesOfDecoder mesh enc.conn enc.controllers enc.couts.toList = .ok sides → ∀ (i k : Nat)
-      (hi : i < (planOf o g.atts.toArray enc.conn enc.controllers enc.couts.toList sides).length)
-      (hk : k < (planOf o g.atts.toArray enc.conn enc.controllers enc.couts.toList sides)[i].items.length),
-      ValuesOK mesh (planOf o g.atts.toArray enc.conn enc.controllers enc.couts.toList sides)[i]
-        (parentAt (planOf o g.atts.toArray enc.conn enc.controllers enc.couts.toList sides) i k)
-        (planOf o g.atts.toArray enc.conn enc.controllers enc.couts.toList sides)[i].items[k])
+    (hVS : ValueSideOK ch o g enc mesh)
     (hrest : ∀ sides, sidesOfDecoder mesh enc.conn enc.controllers enc.couts.toList = .ok sides →
       ∀ c side it, (c, side) ∈ enc.couts.toList.zip sides → it ∈ c.items.toList →
       ¬ (useSingleConnectivity o = true ∨
@@ -965,11 +965,11 @@ theorem eb_roundtrip_of_link_base_partial (ch : EbChoices) (g : Geometry) (md : 
         (planGeometry {} mesh (planOf o g.atts.toArray enc.conn enc.controllers enc.couts.toList sides))
         (planGeometry { skip := allTypes } mesh
           (planOf o g.atts.toArray enc.conn enc.controllers enc.couts.toList sides)) = true :=
-  Final6.eb_roundtrip_of_link_base'' ch g md o enc henc hmd hatt huid hn128 hbytes hgv mesh hconn hiso hmatts hD hS hclass
-    hvals hrest extra
+  Final7.eb_roundtrip_of_link_base''' ch g md o enc henc hmd hatt huid hn128 hbytes hgv mesh hconn hiso hmatts hD hS hclass
+    hVS hrest extra
 
-/-- non-vacuity: the one-triangle stream; `DecBaseOK`, `DecSeqOK`, `hclass` proved, `hrest` vacuous, only the value-block
-    condition `exHvals` is an evaluated input -/
+/-- non-vacuity: the one-triangle stream; `DecBaseOK`, `DecSeqOK`, `hclass`, `ValueSideOK` proved (closed decidable facts),
+    `hrest` vacuous: the round trip rests only on the encoder's run, the connectivity link `exHconn`/`exIso` -/
 example (extra : Bytes) :
     ∃ st st',
       decodeGeometry {} { rest := exBytes ++ extra } = (some ⟨planGeometry {} ConnExample.exMesh exPlan, none⟩, st) ∧ st.rest = extra ∧
@@ -1020,16 +1020,59 @@ example (extra : Bytes) :
       ((exG.atts.toArray[(exEnc.controllers[c.ctrl]!).attIds[0]!]!).attType == posType) &&
       ((exG.atts.toArray[it.attId]!).attType == posType)) = true := by decide +kernel
   have hcl : (exEnc.couts.toList.all fun c => !(exEnc.controllers[c.ctrl]!).onAttTable) = true := by decide +kernel
+  -- the value-side conditions of the single block
+  have hVS : ValueSideOK ConnExample.exCh exO exG exEnc ConnExample.exMesh := by
+    intro sides hs i k hi hsl hk hne b hb
+    have e0 := hsides sides hs
+    subst e0
+    have hlen1 : exEnc.couts.toList.length = 1 := by decide +kernel
+    have hi0 : i = 0 := by omega
+    subst hi0
+    have hc0 : exEnc.couts.toList[0]'hi = exEnc.couts.toList[0]! := (getElem!_pos _ 0 hi).symm
+    have hsd : exSides[0]'hsl = (exSeqD, exMapD) := rfl
+    generalize exEnc.couts.toList[0]'hi = c0 at hc0 hk hne hb ⊢
+    generalize exSides[0]'hsl = sd at hsd ⊢
+    subst hc0 hsd
+    have hsz1 : (exEnc.couts.toList[0]!).items.size = 1 := by decide +kernel
+    have hk0 : k = 0 := by omega
+    subst hk0
+    have hit0 : (exEnc.couts.toList[0]!).items[0]'hk = (exEnc.couts.toList[0]!).items[0]! :=
+      (getElem!_pos _ 0 hk).symm
+    generalize (exEnc.couts.toList[0]!).items[0]'hk = it0 at hit0 hne hb
+    subst hit0
+    have hbk : b = Final7.exBlk := by
+      unfold Final7.exBlk
+      rw [hb]
+      rfl
+    subst hbk
+    have hpar : parentAt (planOf exO exG.atts.toArray exEnc.conn exEnc.controllers exEnc.couts.toList exSides) 0 0 = none := by
+      have : planOf exO exG.atts.toArray exEnc.conn exEnc.controllers exEnc.couts.toList exSides = [ConnExample.exD] :=
+        exPlan_eq
+      rw [this]; rfl
+    rw [hpar]
+    exact {
+      numValues := by decide +kernel
+      kindOK := schemeKindOk_sound _ _ (by decide +kernel)
+      parent := fun h => absurd h (by decide +kernel)
+      nc := by decide +kernel
+      n := by decide +kernel
+      len := by decide +kernel
+      h32 := by decide +kernel
+      range := int32All_sound _ (by decide +kernel)
+      normals := fun h => absurd h (by decide +kernel)
+      faces := by decide +kernel
+      corners := by decide +kernel
+      crease := fun h => by
+        have h0 : (Final7.exBlk.scheme == PScheme.constrainedMulti) = false := by decide +kernel
+        rw [h] at h0
+        exact absurd h0 (by decide) }
   obtain ⟨sides, hs, h⟩ := eb_roundtrip_of_link_base_partial ConnExample.exCh exG none exO exEnc exEncode (fun m h => by cases h) exHatt
     exHuid (by decide +kernel) hbytes (by decide +kernel) ConnExample.exMesh exHconn hiso (by decide +kernel) hD hS
     (by
       intro c hc
       have := List.all_eq_true.mp hcl c hc
       simpa using this)
-    (by
-      intro sides hs
-      rw [hsides sides hs]
-      exact exHvals)
+    hVS
     (by
       intro sides hs c side it hz hit hn
       exfalso
@@ -1163,6 +1206,38 @@ example : fan4Conn.symbols = #[0, 5, 5, 7] ∧ ∃ mesh, Runs decodeConnectivity
   ⟨by decide +kernel, by
     obtain ⟨mesh, h1, _, h2, _⟩ := eb_connectivity_roundtrip_splitfree_partial exCh.conn fan4 fan4Conn fan4Encode
       (by decide +kernel) (by decide +kernel) (by decide +kernel) (by decide +kernel) (by decide +kernel)
+    exact ⟨mesh, h1, h2⟩⟩
+
+/-- **eb_connectivity_roundtrip_noS_partial** — the connectivity link for EVERY run without the symbol S, start faces
+    ARBITRARY (interior start-face configurations included: closed meshes such as the tetrahedron): `hnoS`, the decoder's domain
+    checks (`hnf`, `hnv`, `hedge`, and `hsz2`: `num_faces ≤ num_symbols + num_symbols / 3`, a check the decoder makes and the
+    encoder does not guarantee when an interior start face has an already visited neighbour) ⇒ `Runs decodeConnectivity` on
+    the encoder's bytes, `ctIso = true` and `CTIso`.  Encoder: `EncTraceI.traceI_of_run` (`TraceI`: the init face is glued to the
+    stack corner of its component, the fans of its three vertices are closed and consist of symbol faces); decoder:
+    `DecSim.inv_stepI`, `connStart_I`, `connLoop_StI`, `ctIso_StI'`; assembly `ConnSplitFreeI.eb_connectivity_roundtrip_noS`. -/
+theorem eb_connectivity_roundtrip_noS_partial (ch : ConnChoices) (pf : Faces) (conn : ConnEnc)
+    (h : encodeConnectivity ch false pf #[] = .ok conn)
+    (hnoS : ∀ x, x ∈ conn.symbols.toList → x ≠ topoS)
+    (hnf : conn.processed.size ≤ 2 ^ 21)
+    (hnv : conn.ct.numVertices - conn.ct.numIsolated ≤ 3 * 2 ^ 21)
+    (hedge : 3 * conn.processed.size / 2 ≤
+      (conn.ct.numVertices - conn.ct.numIsolated) * (conn.ct.numVertices - conn.ct.numIsolated - 1) / 2)
+    (hsz2 : conn.processed.size ≤ conn.symbols.size + conn.symbols.size / 3) :
+    ∃ mesh, Runs decodeConnectivity 514 ([0] ++ conn.bytes) mesh 514 ∧
+      ctIso conn.ct conn.processed mesh.numFaces mesh.c2v mesh.opp = true ∧
+      CTIso conn.ct conn.processed mesh.numFaces mesh.c2v mesh.opp ∧ mesh.atts.size = conn.atts.size := by
+  obtain ⟨mesh, h1, h2, h3⟩ := NoSLink.eb_connectivity_roundtrip_noS_closed ch pf conn h hnoS hnf hnv hedge hsz2
+  exact ⟨mesh, h1, CTIsoComplete.ctIso_complete h2, h2, h3⟩
+
+/-- non-vacuity with an INTERIOR start face: the model's own run on the tetrahedron (symbols C R E, start-face flag `true`);
+    every hypothesis by kernel evaluation -/
+example : NoSLink.tetraConn.startFaces = #[true] ∧
+    ∃ mesh, Runs decodeConnectivity 514 ([0] ++ NoSLink.tetraConn.bytes) mesh 514 ∧
+      ctIso NoSLink.tetraConn.ct NoSLink.tetraConn.processed mesh.numFaces mesh.c2v mesh.opp = true :=
+  ⟨by decide +kernel, by
+    obtain ⟨mesh, h1, h2, _⟩ := eb_connectivity_roundtrip_noS_partial exCh.conn NoSLink.tetra NoSLink.tetraConn
+      NoSLink.tetraEncode (by decide +kernel) (by decide +kernel) (by decide +kernel) (by decide +kernel)
+      (by decide +kernel)
     exact ⟨mesh, h1, h2⟩⟩
 
 end ConnectivityLink
